@@ -1341,6 +1341,11 @@ func (s *Store) restoreDBFromBackup(ctx context.Context, name string) (newPos lt
 	}
 	newPos = db.Pos()
 
+	// The snapshot is all the backup service has acknowledged of this history.
+	// A high-water mark from before the restore would let retention remove
+	// new transaction files that have never been uploaded.
+	db.SetHWM(newPos.TXID)
+
 	slog.Warn("database restore complete",
 		slog.String("name", name),
 		slog.String("pos", newPos.String()),
